@@ -12,10 +12,15 @@ CHECKS = {
              "peer, each under I/O clamps of 1, 2, 3, 7 bytes per read/write system call and unclamped (NNG_VERIF hook in "
              "nni_aio_iov_clamp_len, used by posix_tcpconn.c and posix_ipcconn.c for reads and writes) and payload scales 1 and 1000, in "
              "both directions (PULL receiving, PUSH sending); every delivered payload and every frame the socket writes is compared byte "
-             "by byte; clamp 1 makes every byte boundary a segment boundary.",
-        note="Trusted: TLC, harness/drv_wire.c, the clamp hook, ASan/UBSan, accounting allocator. tcp, ipc and socket:// (websocket by C16); "
-             "inproc and udp are not driven; raw-mode protocol headers are not sent; real time (bounded waits).",
-        technique="TLA+ model checking (TLC) + simulation replay against real transports under a short-I/O clamp",
+             "by byte; clamp 1 makes every byte boundary a segment boundary.  wire/Ws.tla: the same over ws:// in both roles.  wire/Inproc.tla: the inproc "
+             "transport between two sockets of one process specified at the transport interface (rendezvous of parked writers and readers, header "
+             "pull-up in front of the body, exclusive copy of a shared message, cancel, close of either end, redial); the driver is the protocol "
+             "on both sockets (harness/drv_tran.c), every transition of the small graph and TLC -simulate behaviours of the large one are replayed "
+             "under the task gate: every completed send is received once, whole, in order, with message shapes empty / 4 bytes / 3000 bytes and 0-2 "
+             "header words.",
+        note="Trusted: TLC, harness/drv_wire.c, drv_ws.c, drv_tran.c, the clamp hook, ASan/UBSan, accounting allocator. tcp, ipc, socket://, ws:// and inproc; "
+             "udp is driven by C11; raw-mode protocol headers travel over inproc only (vproto messages with header words); real time (bounded waits) on the stream transports.",
+        technique="TLA+ model checking (TLC) + simulation / edge-cover replay against real transports (short-I/O clamp on streams, task gate on inproc)",
         ref="DESIGN.md section 4, C01"),
     "C11": dict(
         text="wire/Framing.tla: bad magic, wrong protocol id, short handshake + disconnect, frames above NNG_OPT_RECVMAXSZ, absurd lengths, bad "
@@ -36,7 +41,8 @@ CHECKS = {
              "result faithfulness, no early timeout, stop/free soundness; every transition of the graph is replayed on the real "
              "aio framework under the NNG_VERIF task gate (callbacks run when the behaviour says so) and virtual clock; and the "
              "H-AIO trace records (state after every critical section) of the repository's own tests are validated by TLC "
-             "against trace/TraceAio.tla, with a corrupted-trace self-test on every run.",
+             "against trace/TraceAio.tla, with a corrupted-trace self-test on every run.  Transport operations (pipe sends / receives of "
+             "the inproc transport, wire/Inproc.tla) matched, cancelled and closed on either end must each complete exactly once.",
         note="Trusted: TLC, harness/drv_aio.c + dee.c, the add-only NNG_VERIF hooks, ASan/UBSan. One aio at a time; interleavings "
              "inside a critical section are excluded by eq_mtx; internal aios are covered as far as the traced tests reach them.",
         technique="TLA+ model checking (TLC) + gated edge-cover replay + TLC trace validation of hook traces",
@@ -57,7 +63,8 @@ CHECKS = {
              "accept/connect/redial is left) and CtxClosedIsFinal; TLC -simulate behaviours replayed on a REP socket over the harness "
              "transport: socket/context/listener/dialer/pipe close in every reachable state, pending operations must complete with "
              "NNG_ECLOSED in the same step, and after socket close every derived handle (socket, context, listener, dialer, pipes) is "
-             "probed and must be refused.  Close calls run on a helper thread with a watchdog: a close that does not return aborts the driver.",
+             "probed and must be refused.  Close calls run on a helper thread with a watchdog: a close that does not return aborts the driver.  "
+             "wire/Inproc.tla: pipe ends, listener, dialer and sockets of the real inproc transport closed with operations parked on both ends.",
         note="Trusted: TLC, harness, hooks, ASan/UBSan. One protocol (REP) and the harness transport stand for all protocols x transports "
              "(close, endpoints and pipe events live in src/core); close racing with operations issued by a second application thread "
              "is not enumerated; devices are not part of this spec.",
@@ -69,7 +76,9 @@ CHECKS = {
              "without a pipe is dialling or waiting for its reconnect time), ListenerSound (a started listener always has an accept "
              "outstanding); behaviours replayed on the real socket: the driver records every notification with its per-pipe sequence "
              "number, closes pipes inside ADD_PRE, fails/completes dials, loses peers, and advances the virtual clock by the reconnect "
-             "time after which the dialer must have dialled again.",
+             "time after which the dialer must have dialled again.  wire/Inproc.tla: the same on the real inproc transport between two sockets "
+             "(events of both ends of every connection, pipes closed in ADD_PRE by either socket, redial after the dialer's pipe is gone, the "
+             "listener accepting again).",
         note="Trusted: as C10. Reconnect min = max = 10 ms (the randomised delay is below it; back-off growth is not modelled); one dialer and "
              "one listener per socket; harness transport only.",
         technique="TLA+ model checking (TLC) + simulation replay through a harness transport with virtual time",
@@ -83,8 +92,10 @@ CHECKS = {
              "(2) API programs over sockets and the real tcp, ipc and ws transports (behaviours of wire/Framing.tla and wire/Ws.tla: open, "
              "listen, peers connecting, handshakes, upgrades, frames, sends, disconnects, close) are run with every allocation of the "
              "program failing in turn, in whatever thread it happens; the verdict there is survival: no crash (ASan/UBSan/panic), no hang, "
-             "every block returned after close.",
-        note="Trusted: TLC, harness (drv_data, drv_wire, drv_ws, acct.c), ASan/UBSan. Conformance under failure only for lmq/id map/nng_msg; "
+             "every block returned after close.  (3) wire/Inproc.tla gives the inproc hand-off its failure outcome (the receiver's copy of a shared "
+             "message cannot be allocated: the send has succeeded, that one message is lost, the receive keeps waiting and gets the next one); "
+             "TLC -simulate behaviours with the 1st / 2nd allocation of a pipe send or receive failing are replayed and judged step by step.",
+        note="Trusted: TLC, harness (drv_data, drv_wire, drv_ws, drv_tran, acct.c), ASan/UBSan. Conformance under failure only for lmq/id map/nng_msg; "
              "for sockets/transports what the program observes after the failure is not compared.  Harness-transport programs, URL "
              "parsing, statistics snapshots and the HTTP client are not injected.",
         technique="TLA+ specification with failure outcomes + fault-injection replay of TLC behaviours on the implementation",
